@@ -180,13 +180,17 @@ def run(ctx):
                 "tokens, invalid type bytes, OPEN OPEN, huge claimed bodies, garbage), each fed as one chunk, bytewise and "
                 "two random chunkings under 7 root modes; also standard-unslicer streams on the real RootUnslicer; "
                 "non-trivial = distinct (stream, chunking) in which at least one token was completed")
-    ctx.assumptions = ["the unslicers above Banana are the policy unslicers of harness/c07_impl.py in the model-correspondence "
-                       "part; the standard unslicers are exercised by the chunk-independence oracle only",
-                       "the text of ERROR messages is not compared (only that an ERROR token was written)",
-                       "'no exception escapes dataReceived' is checked on every generated input, not proved"]
-    ok, log = ctx.coq_build(["props/C07.vo"])
+    ctx.assumptions = ["two unslicer semantics are compared with the model callback by callback: the policy unslicers of harness/c07_impl.py and the "
+                       "standard unslicers (root, list, tuple, dict, set, immutable-set, unicode, boolean, none) under real constraint objects; "
+                       "decimal / reference / copyable / vocab unslicers, non-ASCII text and float / bool / frozenset set members are covered by "
+                       "the generic theorems and the direct oracles only (the instance model abstains)",
+                       "the text of ERROR messages is not compared (its length rule and the order of the writes are translated and proved)",
+                       "'no exception escapes dataReceived' is a theorem over the translated except clause for every unslicer semantics whose "
+                       "callbacks raise Python exceptions (not: errors inside the handler's own sendError / transport.write)"]
+    ok, log = ctx.coq_build(["props/C07.vo", "lib/PolUnslProofs.vo"])
     before = len(ctx.failures)
     model_ok = ok or ctx.coq_build(["lib/BananaRecv.vo"])[0]
+    generic_ok = ok or ctx.coq_build(["lib/PolUnsl.vo", "lib/StdUnsl.vo"])[0]
 
     g = Gen(ctx.rng)
     cases = []
@@ -243,12 +247,19 @@ def run(ctx):
         resync_vocab(ctx, I)
         leaf_second_token(ctx, I)
         spec_oracle(ctx, I)
+        send_error_oracle(ctx, I, generic_ok)
+        absorbing_closer_note(ctx, I)
+        if generic_ok:
+            from harness import c07_std
+            c07_std.std_correspondence(ctx, I, ctx.n(110, 2500))
     ctx.sample(dict(stream=list(cases[len(corpus)][0]), rootmode=cases[len(corpus)][1], kind=cases[len(corpus)][2]))
     ctx.sample(dict(stream=list(cases[-1][0]), rootmode=cases[-1][1], kind=cases[-1][2]))
 
     # ---- correspondence with the Coq model, event by event and snapshot by snapshot
     if model_ok:
         correspond(ctx, model_cases)
+    if generic_ok:
+        correspond_generic(ctx, model_cases[::3] if ctx.tier != "quick" else model_cases[::2])
     if not ok and len(ctx.failures) == before:
         ctx.fail("proof-broken", "theorem closure props/C07.vo no longer builds: " + log[-2500:], replay=dict(log=log[-6000:]),
                  has_input=False)
@@ -300,6 +311,142 @@ def correspond(ctx, model_cases):
     ctx.extra["correspondence_traces"] = ctx.traces
     ctx.extra["correspondence_disagreements"] = nbad
     ctx.extra["correspondence_model_abstained"] = skipped
+
+
+def uval_code_policy(c):
+    """canonical delivered object of the policy unslicers in the layout of lib/Unsl.v's uval_code"""
+    t = c[0]
+    if t == "i":
+        return [1, c[1]]
+    if t == "f":
+        return [2, len(c[1])] + list(c[1])
+    if t == "s":
+        return [3, len(c[1])] + list(c[1])
+    if t == "L":
+        out = [4, ord(c[1]), 0, len(c[2])]
+        for x in c[2]:
+            out += uval_code_policy(x)
+        return out
+    raise ValueError(c)
+
+
+def correspond_generic(ctx, model_cases):
+    """the same real traces against the GENERIC receive logic lib/Unsl.v instantiated with the policy unslicers (lib/PolUnsl.v):
+    semantic events (deliveries, violations, PONGs, ERROR / close / reported error class) and the per-chunk snapshots"""
+    from harness.c07_impl import VOCAB_TABLE
+    voc = "[" + "; ".join("(%d, %s)" % (k, common.coq_bytes(v).replace("%N", "")) for k, v in sorted(VOCAB_TABLE.items())) + "]"
+    shard = 250
+    nbad = skipped = n = 0
+    for si in range(0, len(model_cases), shard):
+        part = model_cases[si:si + shard]
+        lines = []
+        for (s, cs, mode, ev, snaps) in part:
+            chunks, pos = [], 0
+            for k in cs:
+                chunks.append("[" + ";".join(str(b) for b in s[pos:pos + k]) + "]")
+                pos += k
+            lines.append("(%d, [%s])" % (modecode(mode), "; ".join(chunks)))
+        body = ("Local Open Scope Z_scope.\nDefinition voc : list (Z * list Z) := %s.\n"
+                "Definition cases : list (Z * list (list Z)) := [\n%s].\n"
+                "Eval vm_compute in map (fun c => ptrace (init (pctx0 (fst c) voc)) (snd c)) cases.\n" % (voc, ";\n".join(lines)))
+        try:
+            (vals,) = ctx.coq_eval("C07_generic_%d" % (si // shard), body,
+                                   requires=["Verif.lib.PyLite", "Verif.gen.BananaGen", "Verif.lib.Token", "Verif.lib.Recv", "Verif.lib.BananaRecv",
+                                             "Verif.lib.Unsl", "Verif.lib.PolUnsl"])
+        except common.CoqEvalError as e:
+            ctx.fail("correspondence-broken", "the generic receive model could not be evaluated: " + str(e)[-1500:], has_input=False)
+            return
+        for (s, cs, mode, ev, snaps), (mev, msnaps) in zip(part, vals):
+            if [99] in mev:
+                skipped += 1
+                continue
+            iev = []
+            for e in ev:
+                if e[0] == "deliver":
+                    iev.append([10] + uval_code_policy(e[1]))
+                elif e[0] in ("violation", "pong", "error-sent", "lose", "receive-error"):
+                    iev.append(ev_code(e))
+            isn = [[x["buf"], x["skip"], x["discard"], x["depth"], int(x["inopen"]), int(x["dead"])] for x in snaps]
+            norm = lambda l: [list(x) if not x[5] else [0, 0, 0, 0, 0, 1] for x in l]
+            n += 1
+            ctx.traces += 1
+            if iev != [list(e) for e in mev] or norm(isn) != norm(msnaps):
+                nbad += 1
+                if nbad <= 3:
+                    ctx.fail("correspondence/generic-recv", "generic receive logic (lib/Unsl.v, policy instance) and implementation disagree: stream=%r chunks=%r mode=%s\n"
+                             " impl events %r\n model events %r\n impl snaps %r\n model snaps %r" % (list(s), cs[:40], mode, iev, mev, isn[-3:], msnaps[-3:]),
+                             replay=dict(stream=list(s), chunks=cs, rootmode=mode, impl=[iev, isn], model=[mev, msnaps]), has_input=False)
+    ctx.extra["generic_correspondence_traces"] = n
+    ctx.extra["generic_correspondence_disagreements"] = nbad
+
+
+def send_error_oracle(ctx, I, model_ok):
+    """Banana.sendError: whatever the message, the ERROR token that is written announces at most SIZE_LIMIT bytes (the peer refuses
+    more), announces exactly what follows, and the connection is closed after it; the length rule is the translated se_len"""
+    from foolscap import banana, tokens
+    cases = []
+    for n in (0, 1, 2, 999, 1000, 1001, 1002, 1010, 1011, 2000, 70000):
+        for msg in (b"e" * n, "e" * n):
+            p = I.PolicyBanana("any")
+            p.sendError(msg)
+            data = b"".join(e[1] for e in p.vlog if e[0] == "write")
+            j = 0
+            while j < len(data) and data[j] < 0x80:
+                j += 1
+            announced = banana.b1282int(data[:j]) if j else 0
+            body = data[j + 1:]
+            lost = ("lose",) in p.vlog and p.vlog[-1] == ("lose",)
+            ctx.case(["send-error", n, type(msg).__name__], nontrivial=True)
+            if data[j:j + 1] != tokens.ERROR or announced != len(body) or announced > tokens.SIZE_LIMIT or not lost or (n <= tokens.SIZE_LIMIT and body != b"e" * n):
+                ctx.fail("oracle/error-token-malformed", "sendError(%d-byte message) wrote an ERROR token announcing %d bytes followed by %d bytes (limit %d), "
+                         "connection closed afterwards: %s" % (n, announced, len(body), tokens.SIZE_LIMIT, lost),
+                         replay=dict(length=n, announced=announced, body=len(body)))
+            cases.append((n, announced))
+    if model_ok:
+        try:
+            (vals,) = ctx.coq_eval("C07_se_len", "Local Open Scope Z_scope.\nEval vm_compute in map se_len [%s].\n" % "; ".join(str(n) for n, _ in cases),
+                                   requires=["Verif.lib.PyLite", "Verif.gen.BananaGen", "Verif.gen.RecvGen"])
+        except common.CoqEvalError as e:
+            ctx.fail("correspondence-broken", "se_len could not be evaluated: " + str(e)[-800:], has_input=False)
+            return
+        for (n, announced), m in zip(cases, vals):
+            ctx.traces += 1
+            if announced != m:
+                ctx.fail("correspondence/send-error-length", "translated sendError length rule gives %d for a %d-byte message, the real method announced %d" % (m, n, announced),
+                         replay=dict(length=n), has_input=False)
+
+
+def absorbing_closer_note(ctx, I):
+    """replay of lib/PolUnslProofs.unsl_depth_refuted_absorbing_closer on the real Banana class: a THIRD-PARTY unslicer that absorbs
+    violations and raises one from its own receiveClose stays on the stack after its CLOSE.  No unslicer of the package does this; the
+    generic theorems exclude it by hypothesis.  Recorded as an observation, not a violation."""
+    class Y(I.PU):
+        def receiveClose(self):
+            raise I.Violation("bad close")
+
+        def reportViolation(self, f):
+            return None
+
+    class RootY(I.PolicyRoot):
+        def doOpen(self, opentype):
+            if opentype[0] == "Y":
+                return Y("Y", 0, self.log)
+            return I.PolicyRoot.doOpen(self, opentype)
+
+    class B(I.PolicyBanana):
+        unslicerClass = RootY
+    p = B("any")
+    p.dataReceived(tok(OPEN, 0) + S(b"Y") + tok(CLOSE, 0))
+    depth_after = len(p.receiveStack)
+    p.dataReceived(enc_int(7))
+    delivered = [e for e in p.vlog if e[0] == "deliver"]
+    ctx.case(["absorbing-closer"], nontrivial=True)
+    if depth_after == 2 and not delivered:
+        ctx.note("observation (third-party unslicers only): an unslicer that absorbs violations and raises one from receiveClose stays on the "
+                 "receive stack after its CLOSE (depth %d, a following top-level INT was not delivered); refutation witness of "
+                 "lib/PolUnslProofs.v replayed on banana.py" % depth_after)
+    else:
+        ctx.note("absorbing-closer witness no longer reproduces on this tree (depth %d, delivered %r)" % (depth_after, delivered))
 
 
 class TreeGen:
